@@ -32,10 +32,14 @@ const CDC_NAME: &str = "com.scylladb.dht.CDCPartitioner";
 const M3_NAME: &str = "org.apache.cassandra.dht.Murmur3Partitioner";
 const UNK_NAME: &str = "org.example.dht.FooPartitioner";
 
-pub fn generate(rng: &mut Rng, tier: Tier, emit: &mut dyn FnMut(String)) {
-    let n = if tier == Tier::Quick { 12 } else { 60 };
+/// Generated as `sesspart ...` cases by `c03::generate` (so that `md_C03` compares the line with the model instead of
+/// echoing it); `e2e partitioner ...` lines (corpus, by hand) run the same code oracle-only.
+pub fn generate(_rng: &mut Rng, _tier: Tier, _emit: &mut dyn FnMut(String)) {}
+
+pub fn generate_sesspart(rng: &mut Rng, tier: Tier, emit: &mut dyn FnMut(String)) {
+    let n = if tier == Tier::Quick { 24 } else { 100 };
     for i in 0..n {
-        emit(format!("e2e partitioner schema={} seed={}", if i % 3 == 2 { 0 } else { 1 }, rng.below(1 << 32)));
+        emit(format!("sesspart schema={} seed={}", if i % 3 == 2 { 0 } else { 1 }, rng.below(1 << 32)));
     }
 }
 
@@ -63,6 +67,85 @@ fn table_of(text: &str) -> Option<(String, String)> {
     Some((ks.to_owned(), t.to_owned()))
 }
 
+/// A bound value on the case / output line: hex, `-` (empty), `N` (null), `U` (unset).
+#[derive(Clone, Debug)]
+enum V {
+    B(Vec<u8>),
+    Null,
+    Unset,
+}
+
+impl V {
+    fn show(&self) -> String {
+        match self {
+            V::B(b) => crate::util::hex(b),
+            V::Null => "N".into(),
+            V::Unset => "U".into(),
+        }
+    }
+    fn bind(&self) -> scylla::value::MaybeUnset<Option<Vec<u8>>> {
+        match self {
+            V::B(b) => scylla::value::MaybeUnset::Set(Some(b.clone())),
+            V::Null => scylla::value::MaybeUnset::Set(None),
+            V::Unset => scylla::value::MaybeUnset::Unset,
+        }
+    }
+    fn bytes(&self) -> Option<&[u8]> {
+        match self {
+            V::B(b) => Some(b),
+            _ => None,
+        }
+    }
+}
+
+fn show_vals(vs: &[V]) -> String {
+    vs.iter().map(|v| v.show()).collect::<Vec<_>>().join(",")
+}
+
+fn show_tok(r: &Result<Option<scylla::routing::Token>, scylla::statement::prepared::PartitionKeyError>) -> String {
+    use scylla::statement::prepared::{PartitionKeyError, PartitionKeyExtractionError, TokenCalculationError};
+    match r {
+        Ok(Some(t)) => format!("ok:{}", t.value()),
+        Ok(None) => "none".into(),
+        Err(PartitionKeyError::PartitionKeyExtraction(PartitionKeyExtractionError::NoPkIndexValue(i, c))) => format!("err:noPk:{i}:{c}"),
+        Err(PartitionKeyError::TokenCalculation(TokenCalculationError::ValueTooLong(n))) => format!("err:tooLong:{n}"),
+        Err(PartitionKeyError::Serialization(_)) => "err:serialization".into(),
+        Err(_) => "err:other".into(),
+    }
+}
+
+fn show_ctok(r: &Result<scylla::routing::Token, scylla::errors::ClusterStateTokenError>) -> String {
+    use scylla::errors::ClusterStateTokenError as E;
+    use scylla::statement::prepared::TokenCalculationError;
+    match r {
+        Ok(t) => format!("ok:{}", t.value()),
+        Err(E::UnknownTable { .. }) => "err:unknownTable".into(),
+        Err(E::Serialization(_)) => "err:serialization".into(),
+        Err(E::TokenCalculation(TokenCalculationError::ValueTooLong(n))) => format!("err:tooLong:{n}"),
+        Err(_) => "err:other".into(),
+    }
+}
+
+fn encode_key(comps: &[&[u8]]) -> Vec<u8> {
+    if comps.len() == 1 {
+        return comps[0].to_vec();
+    }
+    let mut enc = Vec::new();
+    for c in comps {
+        enc.extend_from_slice(&(c.len() as u16).to_be_bytes());
+        enc.extend_from_slice(c);
+        enc.push(0);
+    }
+    enc
+}
+
+/// Output line (compared with the Lean model by `md_C03`, case word `sesspart`; merely echoed for `e2e partitioner`):
+/// `schema=<s> snap=<ks.table:pkcols:partitioner-hex|N,...|-> ; <op> ; <op> ...` with
+///   `prep <ks> <table> <wire> <vals> <partitioner> <token>`     Session::prepare + calculate_token
+///   `ctok <ks> <table> <types-ok 0|1> <key | many<n>> <result>`  ClusterState::compute_token
+/// The snapshot is read from the session's REAL cluster state; the model recomputes `<partitioner> <token>` /
+/// `<result>` from the snapshot and the operation's inputs (`preparedPartitioner`, `boundCalculateToken`,
+/// `clusterComputeTokenChecked`).
 pub fn run(words: &[&str], ctx: &mut Ctx) -> String {
     let Some(p) = Params::parse(words) else { return "bad-case".into() };
     let (Some(schema), Some(seed)) = (p.num_or("schema", 1), p.num_or("seed", 1)) else { return "bad-case".into() };
@@ -106,14 +189,34 @@ pub fn run(words: &[&str], ctx: &mut Ctx) -> String {
             Ok(s) => s,
             Err(line) => return line,
         };
+        let cs = session.get_cluster_state();
         // precondition of the judged part: the snapshot really contains the tables (schema=1)
         if schema == 1 {
-            let cs = session.get_cluster_state();
             let known = cs.get_keyspace("ks").map(|k| k.tables.contains_key("t_scylla_cdc_log")).unwrap_or(false);
             if !known {
                 return "e2e-skip schema-not-fetched".to_owned();
             }
         }
+        // the snapshot as the session holds it
+        let mut snap: Vec<String> = Vec::new();
+        for ksn in ["ks", "nks"] {
+            if let Some(k) = cs.get_keyspace(ksn) {
+                let mut names: Vec<&String> = k.tables.keys().collect();
+                names.sort();
+                for n in names {
+                    let t = &k.tables[n];
+                    snap.push(format!(
+                        "{}.{}:{}:{}",
+                        ksn,
+                        n,
+                        t.partition_key.len(),
+                        t.partitioner.as_ref().map(|p| crate::util::hex(p.as_bytes())).unwrap_or_else(|| "N".into())
+                    ));
+                }
+            }
+        }
+        let mut out = format!("schema={} snap={}", schema, if snap.is_empty() { "-".to_owned() } else { snap.join(",") });
+
         let targets = [
             ("t", "ks", "t"),
             ("cdclog", "ks", "t_scylla_cdc_log"),
@@ -122,14 +225,13 @@ pub fn run(words: &[&str], ctx: &mut Ctx) -> String {
             ("absent", "ks", "absent_scylla_cdc_log"),
             ("nks", "nks", "x_scylla_cdc_log"),
         ];
-        let mut out = format!("schema={}", schema);
         for (label, ks, t) in targets {
             let text = format!("SELECT v FROM {ks}.{t} WHERE pk = ?");
             let ps = match session.prepare(text.as_str()).await {
                 Ok(ps) => ps,
                 Err(_) => {
                     ctx.fail(format!("prepare of `{text}` failed"));
-                    out.push_str(&format!(" {label}=prepare-failed"));
+                    out.push_str(&format!(" ; prep {ks} {t} 0 - prepare-failed none"));
                     continue;
                 }
             };
@@ -138,7 +240,8 @@ pub fn run(words: &[&str], ctx: &mut Ctx) -> String {
             if rng.chance(1, 4) {
                 id[..8].copy_from_slice(&i64::MIN.to_be_bytes());
             }
-            let tok = ps.calculate_token(&(id.clone(),)).ok().flatten().map(|t| t.value());
+            let tokr = ps.calculate_token(&(id.clone(),));
+            let tok = tokr.as_ref().ok().and_then(|t| t.map(|t| t.value()));
             let expect_cdc = schema == 1 && label == "cdclog";
             if schema == 1 && is_cdc != expect_cdc {
                 ctx.fail(format!(
@@ -161,9 +264,14 @@ pub fn run(words: &[&str], ctx: &mut Ctx) -> String {
                     expected_tok
                 ));
             }
+            out.push_str(&format!(
+                " ; prep {ks} {t} 0 {} {} {}",
+                crate::util::hex(&id),
+                if is_cdc { "cdc" } else { "murmur3" },
+                show_tok(&tokr)
+            ));
             // ClusterState::compute_token (the path that bypasses PreparedStatement): same token for a table in the
             // snapshot, UnknownTable otherwise
-            let cs = session.get_cluster_state();
             let ct = cs.compute_token(ks, t, &(id.clone(),));
             let in_snapshot = schema == 1 && !matches!(label, "absent" | "nks");
             match (&ct, in_snapshot) {
@@ -178,50 +286,75 @@ pub fn run(words: &[&str], ctx: &mut Ctx) -> String {
                 }
                 (Err(scylla::errors::ClusterStateTokenError::UnknownTable { .. }), false) => {}
                 (other, _) => ctx.fail(format!(
-                    "{ks}.{t}: ClusterState::compute_token gave {:?} (table in the snapshot: {})",
-                    other.as_ref().map(|t| t.value()).map_err(|e| e.to_string()),
+                    "{ks}.{t}: ClusterState::compute_token gave {} (table in the snapshot: {})",
+                    show_ctok(other),
                     in_snapshot
                 )),
             }
-            out.push_str(&format!(" {label}={}", if is_cdc { "cdc" } else { "murmur3" }));
+            out.push_str(&format!(" ; ctok {ks} {t} 1 {} {}", crate::util::hex(&id), show_ctok(&ct)));
         }
-        // composite key, markers in the order (b, a): both paths must give the token of  len(a) a 0 len(b) b 0
-        {
-            let text = "SELECT v FROM ks.comp WHERE b = ? AND a = ?";
-            let (la, lb) = (1 + rng.below(20) as usize, rng.below(20) as usize);
-            let (a, b) = (rng.bytes(la), rng.bytes(lb));
-            let mut enc = Vec::new();
-            for c in [&a, &b] {
-                enc.extend_from_slice(&(c.len() as u16).to_be_bytes());
-                enc.extend_from_slice(c);
-                enc.push(0);
+
+        // composite key ks.comp ((a, b)); the statement's markers are in the order (b, a)
+        let text = "SELECT v FROM ks.comp WHERE b = ? AND a = ?";
+        let ps = match session.prepare(text).await {
+            Ok(ps) => ps,
+            Err(_) => {
+                ctx.fail("prepare of the composite statement failed");
+                return out + " ; prep ks comp 1,0 - prepare-failed none";
             }
-            let expected = reference_murmur3(&enc);
-            match session.prepare(text).await {
-                Ok(ps) => {
-                    let tok = ps.calculate_token(&(b.clone(), a.clone())).ok().flatten().map(|t| t.value());
-                    if tok != Some(expected) {
-                        ctx.fail(format!("ks.comp: calculate_token {:?} is not the token {} of the key in partition-key order (a, b)", tok, expected));
+        };
+        let part = if matches!(ps.get_partitioner_name(), PartitionerName::CDC) { "cdc" } else { "murmur3" };
+        let (la, lb) = (1 + rng.below(20) as usize, rng.below(20) as usize);
+        let (a, b) = (rng.bytes(la), rng.bytes(lb));
+        // key shapes in partition-key order (a, b): fully bound; then null / unset components (not judged: the server
+        // rejects them - here the two paths are KNOWN to differ, see the theorem null_component_paths_diverge)
+        let shapes: Vec<(V, V)> = vec![
+            (V::B(a.clone()), V::B(b.clone())),
+            (V::B(a.clone()), V::Null),
+            (V::Null, V::B(b.clone())),
+            (V::B(a.clone()), V::Unset),
+            (V::Null, V::Null),
+            (V::B(crate::c03::pattern_bytes_pub(65536, 0x80)), V::B(b.clone())),
+        ];
+        for (i, (ka, kb)) in shapes.iter().enumerate() {
+            let tokr = ps.calculate_token(&(kb.bind(), ka.bind()));
+            let ctr = cs.compute_token("ks", "comp", &(ka.bind(), kb.bind()));
+            if let (Some(x), Some(y)) = (ka.bytes(), kb.bytes()) {
+                if x.len() <= 65535 {
+                    // fully bound: both paths give the token of  len(a) a 0 len(b) b 0
+                    let expected = reference_murmur3(&encode_key(&[x, y]));
+                    if tokr.as_ref().ok().and_then(|t| t.map(|t| t.value())) != Some(expected) {
+                        ctx.fail(format!("ks.comp: calculate_token {} is not the token {} of the key in partition-key order (a, b)", show_tok(&tokr), expected));
                     }
-                    if schema == 1 {
-                        let ct = session.get_cluster_state().compute_token("ks", "comp", &(a.clone(), b.clone())).map(|t| t.value());
-                        if ct.as_ref().ok() != Some(&expected) {
-                            ctx.fail(format!("ks.comp: ClusterState::compute_token {:?} is not the token {}", ct.map_err(|e| e.to_string()), expected));
-                        }
-                        // one value too few / too many: a serialization error, never a token
-                        let short = session.get_cluster_state().compute_token("ks", "comp", &(a.clone(),));
-                        if !matches!(short, Err(scylla::errors::ClusterStateTokenError::Serialization(_))) {
-                            ctx.fail("ks.comp: compute_token with one of two key columns did not fail serialization");
-                        }
+                    if schema == 1 && ctr.as_ref().ok().map(|t| t.value()) != Some(expected) {
+                        ctx.fail(format!("ks.comp: ClusterState::compute_token {} is not the token {}", show_ctok(&ctr), expected));
                     }
-                    out.push_str(" comp=ok");
+                } else {
+                    // a component of 65536 bytes: rejected on both paths
+                    if !show_tok(&tokr).starts_with("err:tooLong") || (schema == 1 && !show_ctok(&ctr).starts_with("err:tooLong")) {
+                        ctx.fail(format!("ks.comp: a 65536-byte component was not rejected: {} / {}", show_tok(&tokr), show_ctok(&ctr)));
+                    }
                 }
-                Err(_) => {
-                    ctx.fail("prepare of the composite statement failed");
-                    out.push_str(" comp=prepare-failed");
+            }
+            let _ = i;
+            let kav = if matches!(ka, V::B(x) if x.len() > 1000) { "z65536x80".to_owned() } else { ka.show() };
+            out.push_str(&format!(" ; prep ks comp 1,0 {},{} {} {}", kb.show(), kav, part, show_tok(&tokr)));
+            out.push_str(&format!(" ; ctok ks comp 1 {},{} {}", kav, kb.show(), show_ctok(&ctr)));
+        }
+        // serialization arms of compute_token: a missing column, a value of the wrong Rust type, more than 65535 values
+        let short = cs.compute_token("ks", "comp", &(a.clone(),));
+        let mistyped = cs.compute_token("ks", "comp", &(a.clone(), 5i32));
+        let many = cs.compute_token("ks", "comp", &vec![vec![1u8]; 65536]);
+        if schema == 1 {
+            for (what, r) in [("one of two key columns", &short), ("an int bound to a blob column", &mistyped), ("65536 values", &many)] {
+                if !matches!(r, Err(scylla::errors::ClusterStateTokenError::Serialization(_))) {
+                    ctx.fail(format!("ks.comp: compute_token with {what} did not fail serialization: {}", show_ctok(r)));
                 }
             }
         }
+        out.push_str(&format!(" ; ctok ks comp 1 {} {}", crate::util::hex(&a), show_ctok(&short)));
+        out.push_str(&format!(" ; ctok ks comp 0 {},00000005 {}", crate::util::hex(&a), show_ctok(&mistyped)));
+        out.push_str(&format!(" ; ctok ks comp 1 many65536 {}", show_ctok(&many)));
         out
     })
 }
